@@ -501,7 +501,11 @@ class AttributeStub(Stub):
         self.typ = typ
 
     def render(self, prefix: str = "") -> str:
-        return f"{prefix}{self.name}: {render_annotation(self.typ)}"
+        # The names the annotation uses are imported by the module stub.
+        annotation = strip_module_prefixes(
+            render_annotation(self.typ), get_imports_for_annotation(self.typ).keys()
+        )
+        return f"{prefix}{self.name}: {annotation}"
 
     def __repr__(self) -> str:
         return f"AttributeStub({self.name}, {self.typ})"
@@ -866,9 +870,12 @@ def build_module_stubs(entries: Iterable[FunctionDefinition]) -> Dict[str, Modul
             mod_stubs[entry.module] = ModuleStub()
         mod_stub = mod_stubs[entry.module]
         imports = get_imports_for_signature(entry.signature)
-        # Import TypedDict, if needed.
+        # Import TypedDict, if needed, and what the fields of the generated classes use.
         if entry.typed_dict_class_stubs:
             imports["mypy_extensions"].add("TypedDict")
+        for class_stub in entry.typed_dict_class_stubs:
+            for attribute_stub in class_stub.attribute_stubs:
+                imports.merge(get_imports_for_annotation(attribute_stub.typ))
         func_stub = FunctionStub(
             name, entry.signature, entry.kind, list(imports.keys()), entry.is_async
         )
